@@ -455,12 +455,17 @@ Definition c20_show_clean (c : bool * obj * list (text * text) * list (text * te
   let '(colorize, o, dg, observed) := c in clean_record_model (digest_of dg) colorize o.
 
 (* stream "fmt": (can_colorize, text produced by the wrapped formatter, json.loads table,
-   digest table, text returned by LogFormatter.format) *)
-Definition c20_check_fmt (c : bool * text * list (text * option obj) * list (text * text) * text) : bool :=
+   digest table, text returned by LogFormatter.format).  The json.loads table is keyed by
+   the offset of a '|'-tail inside the colour-coded record: (n, r) says that the text from
+   offset n to the end was given to json.loads with result r. *)
+Definition ptab_of (coloured : text) (tbl : list (N * option obj)) : list (text * option obj) :=
+  map (fun e => (skipn (N.to_nat (fst e)) coloured, snd e)) tbl.
+Definition c20_fmt_model (c : bool * text * list (N * option obj) * list (text * text) * text) : text :=
   let '(can, msg, ps, dg, observed) := c in
-  teqb (format_model (parse_of ps) (digest_of dg) can msg) observed.
-Definition c20_show_fmt (c : bool * text * list (text * option obj) * list (text * text) * text) :=
-  let '(can, msg, ps, dg, observed) := c in format_model (parse_of ps) (digest_of dg) can msg.
+  format_model (parse_of (ptab_of (color_code can msg) ps)) (digest_of dg) can msg.
+Definition c20_check_fmt (c : bool * text * list (N * option obj) * list (text * text) * text) : bool :=
+  teqb (c20_fmt_model c) (snd c).
+Definition c20_show_fmt := c20_fmt_model.
 
 (* stream "gcl": GoogleLogger.write_event(dict): (object, digest table, string fields of the
    printed JSON line).  message = str(clean) + " *" unless the record has its own "message";
@@ -538,12 +543,14 @@ Definition sx_pairs (s : sx) : list (text * text) :=
   | SL l => map (fun p => match p with SL (a :: b :: []) => (sx_text a, sx_text b) | _ => (T "<undecodable>", []) end) l
   | SA _ => [(T "<undecodable>", [])]
   end.
-Definition sx_ptab (s : sx) : list (text * option obj) :=
+Fixpoint dec_nat (l : text) (acc : N) : N :=
+  match l with [] => acc | c :: r => dec_nat r (10 * acc + (c - 48)) end.
+Definition sx_ptab (s : sx) : list (N * option obj) :=
   match s with
   | SL l => map (fun p => match p with
-                          | SL (a :: []) => (sx_text a, None)
-                          | SL (a :: o :: []) => (sx_text a, Some (sx_obj o))
-                          | _ => ([], None)
+                          | SL (a :: []) => (dec_nat (sx_text a) 0, None)
+                          | SL (a :: o :: []) => (dec_nat (sx_text a) 0, Some (sx_obj o))
+                          | _ => (0, None)
                           end) l
   | SA _ => []
   end.
@@ -555,7 +562,7 @@ Definition c20_dec_clean (s : string) : bool * obj * list (text * text) * list (
   | [c; o; dg; items] => (sx_bool c, sx_obj o, sx_pairs dg, sx_pairs items)
   | _ => (false, [], [], [(T "<undecodable case>", [])])
   end.
-Definition c20_dec_fmt (s : string) : bool * text * list (text * option obj) * list (text * text) * text :=
+Definition c20_dec_fmt (s : string) : bool * text * list (N * option obj) * list (text * text) * text :=
   match sx_parse s with
   | [c; m; ps; dg; out] => (sx_bool c, sx_text m, sx_ptab ps, sx_pairs dg, sx_text out)
   | _ => (false, [], [], [], T "<undecodable case>")
